@@ -192,6 +192,100 @@ def splitByte (c : UInt8) : List UInt8 → List UInt8 → List (List UInt8)
 
 def strings_Split1 (s : List UInt8) (c : UInt8) : List (List UInt8) := splitByte c [] s
 
+/-! ## `int` shifts, strconv.Atoi, regexp (a subset) -/
+
+/-- `x << n` on `int` (no wrap at 64 bits: see the header) -/
+def shlInt (x : Int) (n : Nat) : Int := x * (2 : Int) ^ n
+
+def isDigit (c : UInt8) : Bool := 48 ≤ c && c ≤ 57
+
+def digitsVal (ds : List UInt8) : Nat := ds.foldl (fun acc c => acc * 10 + (c.toNat - 48)) 0
+
+/-- `strconv.Atoi`: optional sign, decimal digits only; the value and nil, or 0 and a syntax
+    error, or the nearest `int64` bound and a range error -/
+def strconv_Atoi (s : List UInt8) : Int × Option Err :=
+  let neg := s.head? == some 45
+  let ds := if s.head? == some 43 || s.head? == some 45 then s.drop 1 else s
+  if ds.isEmpty || !ds.all isDigit then (0, some ⟨"strconv.Atoi", 0, []⟩)
+  else
+    let v : Int := if neg then -(Int.ofNat (digitsVal ds)) else Int.ofNat (digitsVal ds)
+    if v > 9223372036854775807 then (9223372036854775807, some ⟨"strconv.Atoi", 1, []⟩)
+    else if v < -9223372036854775808 then (-9223372036854775808, some ⟨"strconv.Atoi", 1, []⟩)
+    else (v, none)
+
+/-- one element of a pattern: a set of bytes (inclusive ranges), possibly starred -/
+structure ReItem where
+  ranges : List (UInt8 × UInt8)
+  star : Bool
+
+def ReItem.has (it : ReItem) (c : UInt8) : Bool := it.ranges.any fun r => r.1 ≤ c && c ≤ r.2
+
+/-- bytes that have a meaning of their own in a pattern: a pattern using one outside the
+    supported positions is not given a meaning here -/
+def reMeta (c : UInt8) : Bool := [92, 46, 43, 63, 40, 41, 124, 123, 125, 42, 91, 93, 94, 36].contains c
+
+/-- the inside of a `[...]` class made of single bytes and `a-b` ranges (no negation, no escapes) -/
+def reClass : List UInt8 → Option (List (UInt8 × UInt8))
+  | [] => some []
+  | a :: 45 :: b :: rest => if reMeta a || reMeta b then none else (reClass rest).map ((a, b) :: ·)
+  | a :: rest => if reMeta a || a = 45 then none else (reClass rest).map ((a, a) :: ·)
+
+/-- split at the first `]` -/
+def reUntilClose : List UInt8 → Option (List UInt8 × List UInt8)
+  | [] => none
+  | 93 :: rest => some ([], rest)
+  | c :: rest => (reUntilClose rest).map fun p => (c :: p.1, p.2)
+
+/-- items of a pattern body (between the anchors): literals and classes, each optionally starred -/
+def reItems : Nat → List UInt8 → Option (List ReItem)
+  | 0, _ => none
+  | _ + 1, [] => some []
+  | fuel + 1, 91 :: rest =>
+    match reUntilClose rest with
+    | none => none
+    | some (cls, after) =>
+      match reClass cls with
+      | none => none
+      | some rs =>
+        match after with
+        | 42 :: after' => (reItems fuel after').map (⟨rs, true⟩ :: ·)
+        | _ => (reItems fuel after).map (⟨rs, false⟩ :: ·)
+  | fuel + 1, c :: rest =>
+    if reMeta c then none
+    else match rest with
+      | 42 :: rest' => (reItems fuel rest').map (⟨[(c, c)], true⟩ :: ·)
+      | _ => (reItems fuel rest).map (⟨[(c, c)], false⟩ :: ·)
+
+/-- does `s` match the items from its start (`toEnd`: and up to its end)? -/
+def reMatchHere (toEnd : Bool) : List ReItem → List UInt8 → Bool
+  | [], s => if toEnd then s.isEmpty else true
+  | it :: is, s =>
+    if it.star then
+      reMatchHere toEnd is s ||
+        (match s with
+         | c :: s' => it.has c && reMatchHere toEnd (it :: is) s'
+         | [] => false)
+    else
+      match s with
+      | c :: s' => it.has c && reMatchHere toEnd is s'
+      | [] => false
+termination_by is s => (s.length, is.length)
+
+/-- patterns outside the subset: not given a meaning -/
+opaque regexpUnsupported : List UInt8 → List UInt8 → Bool
+
+/-- `regexp.MustCompile(pat).MatchString(s)` for `^ITEMS$` patterns, ITEMS being literals and
+    simple classes, each optionally followed by `*` (the only kind the translated code uses) -/
+def regexp_MatchString (pat s : List UInt8) : Bool :=
+  match pat with
+  | 94 :: body =>
+    if body.getLast? == some 36 then
+      match reItems (body.length + 1) body.dropLast with
+      | some items => reMatchHere true items s
+      | none => regexpUnsupported pat s
+    else regexpUnsupported pat s
+  | _ => regexpUnsupported pat s
+
 /-! ## io.LimitReader, bufio.Scanner (default split function ScanLines, default buffer)
 
 A source of bytes (`io.Reader`) is the byte string it delivers before a clean
